@@ -16,7 +16,7 @@ import (
 // C11 — Copier reproduces the source object graph.
 
 func init() {
-	addRun("C11", "random source graphs (dicts, arrays, scalars, reference chains and pure reference cycles, free/dangling/wrong-generation references, object-stream members, streams 0..5000 bytes with 0-3 filters, /Crypt Identity and unsupported crypt filters, indirect /Length via a non-seekable writer, indirect /Filter and /DecodeParms, null dictionary entries, injected malformed and I/O-failing objects) written by the real Writer x programs of 1-6 Copy/CopyReference/Redirect calls (the object returned by Copy is written at once or only after 1-3 further calls; in a quarter of the cases a stream is open on the target Writer during the whole program, so that every Put is queued) x 8 source and 8 target versions x source/target passwords x seekable or not x human-readable target. A case is non-trivial when the program reaches at least two source objects; distinct by seed-independent shape (model input line).", runCPY)
+	addRun("C11", "random source graphs (dicts, arrays, scalars, reference chains and pure reference cycles, free/dangling/wrong-generation references, object-stream members, streams 0..5000 bytes with 0-3 filters, /Crypt Identity and unsupported crypt filters, indirect /Length via a non-seekable writer, indirect /Filter and /DecodeParms, null dictionary entries, injected malformed and I/O-failing objects; document-level metadata absent, ordinary or Plaintext (/EncryptMetadata false for encrypted sources >= 1.6) with non-catalog /Type /Metadata streams owned by dictionaries and XObject streams, /Type /XObject and untyped streams) written by the real Writer x programs of 1-6 Copy/CopyReference/Redirect calls (the object returned by Copy is written at once or only after 1-3 further calls; in a quarter of the cases a stream is open on the target Writer during the whole program, so that every Put is queued) x 8 source and 8 target versions x source/target passwords x seekable or not x human-readable target. A case is non-trivial when the program reaches at least two source objects; distinct by seed-independent shape (model input line).", runCPY)
 	addReplay("C11", "copier", replayCPY)
 	setCanon("C11", canonReals)
 }
@@ -29,6 +29,9 @@ func genCpyProg(b *cpyBuilt, thorough bool) {
 	var pool []pdf.Reference
 	for _, nd := range cs.nodes {
 		pool = append(pool, nd.ref)
+	}
+	if cs.catalogMeta != 0 {
+		pool = append(pool, cs.catalogMeta)
 	}
 	pool = append(pool, cs.extraRefs...)
 	real := pool[:len(pool)-len(cs.extraRefs)]
@@ -62,6 +65,10 @@ func genCpyProg(b *cpyBuilt, thorough bool) {
 		if nd.kind == nkStream {
 			streams = append(streams, nd.ref)
 		}
+	}
+	if cs.catalogMeta != 0 {
+		streams = append(streams, cs.catalogMeta)
+		rich = append(rich, cs.catalogMeta)
 	}
 	// the caller writes the object returned by Copy at once, or only after 1..3 further operations
 	later := func() int {
@@ -232,6 +239,22 @@ type cpyIso struct {
 	visited    int
 
 	afterFailure bool // some earlier call of the program failed
+
+	truth map[int64]cpyTruth // /CpyId -> the plaintext the harness wrote into that source stream
+}
+
+// cpyTruth is the plaintext of a source stream.  A PNG predictor works on whole rows: the last
+// partial row comes back padded with zero bytes (in the source as in the copy).
+type cpyTruth struct {
+	data []byte
+	row  int
+}
+
+func (t cpyTruth) padded() []byte {
+	if t.row <= 1 || len(t.data)%t.row == 0 {
+		return t.data
+	}
+	return append(append([]byte{}, t.data...), make([]byte, t.row-len(t.data)%t.row)...)
 }
 
 func (c *cpyIso) fail(key, format string, a ...any) {
@@ -397,6 +420,17 @@ func (c *cpyIso) matchStream(ss, ts *pdf.Stream, path string) {
 		return
 	}
 	const lim = 1 << 24
+	// ground truth, independent of every read path on the source: what is installed in the target
+	// must decode to the plaintext the harness wrote into the source stream
+	if id, ok := ss.Dict["CpyId"].(pdf.Integer); ok {
+		if want, ok := c.truth[int64(id)]; ok {
+			if td, terr := pdf.ReadAll(c.T, nil, ts, lim); terr == nil && !bytes.Equal(td, want.padded()) {
+				sd, serr := pdf.ReadAll(c.S, nil, ss, lim)
+				c.fail("stream-plaintext", "%s: the copy decodes to %d bytes which are not the %d bytes of plaintext written into the source stream (reading the source stream directly gives %d bytes, equal to the plaintext: %v, error: %v; filters %s)", path, len(td), len(want.data), len(sd), bytes.Equal(sd, want.padded()), serr, wire(ss.Dict["Filter"]))
+				return
+			}
+		}
+	}
 	sd, serr := pdf.ReadAll(c.S, nil, ss, lim)
 	if serr == nil {
 		td, terr := pdf.ReadAll(c.T, nil, ts, lim)
@@ -942,7 +976,25 @@ func runCpyCase(cs *cpyCase, thorough bool) (res cpyResult) {
 	if cs.lateRedirect {
 		return // objects copied before a Redirect keep the old target: isomorphism is not claimed
 	}
-	iso := &cpyIso{afterFailure: anyFailed, S: b.S, T: T, fwd: map[pdf.Reference]pdf.Reference{}, bwd: map[pdf.Reference]pdf.Reference{}, redirected: redirected}
+	truth := map[int64]cpyTruth{}
+	for _, nd := range cs.nodes {
+		if nd.kind == nkStream {
+			if id, ok := nd.dict["CpyId"].(pdf.Integer); ok && !nd.noTruth {
+				t := cpyTruth{data: nd.data}
+				for _, f := range nd.filters {
+					// a predictor works on whole rows and pads whatever it is applied to: such chains do
+					// not return exactly what was written (in the source as in the copy): no ground truth
+					if ff, ok := f.(pdf.FilterFlate); ok && ff.Predictor >= pdf.FlatePredictorPNGNone {
+						t.row = -1
+					}
+				}
+				if t.row >= 0 {
+					truth[int64(id)] = t
+				}
+			}
+		}
+	}
+	iso := &cpyIso{truth: truth, afterFailure: anyFailed, S: b.S, T: T, fwd: map[pdf.Reference]pdf.Reference{}, bwd: map[pdf.Reference]pdf.Reference{}, redirected: redirected}
 	for i, oc := range outs {
 		path := "op" + strconv.Itoa(i)
 		switch {
@@ -965,7 +1017,9 @@ var errSkipped = errors.New("operation skipped")
 
 var cpyCorpusNames = []string{"D19-stale-trans", "D19b-cycle-failure", "D4-empty-array", "D5-null-entry",
 	"put-later-rc4", "put-later-aes128", "put-later-aes256", "put-later-plain",
-	"open-stream-rc4", "open-stream-aes256", "open-stream-plain"}
+	"open-stream-rc4", "open-stream-aes256", "open-stream-plain",
+	"metadata-rc4-40", "metadata-rc4-128", "metadata-aes128", "metadata-aes256",
+	"metadata-aes128-encmeta-false", "metadata-aes256-encmeta-false", "metadata-aes256-encmeta-false-enc-target"}
 
 // cpyCorpusCase builds a fixed case.  The program is fixed too (fixedProg).
 func cpyCorpusCase(name string) *cpyCase {
@@ -1032,6 +1086,59 @@ func cpyCorpusCase(name string) *cpyCase {
 			cs.prog = []cpyOp{{kind: "cg", ref: ref(3), later: 3}, {kind: "cg", ref: ref(4), later: 2},
 				{kind: "cg", ref: ref(5), later: 2}, {kind: "cr", ref: ref(2)}}
 		}
+	case "metadata-rc4-40", "metadata-rc4-128", "metadata-aes128", "metadata-aes256",
+		"metadata-aes128-encmeta-false", "metadata-aes256-encmeta-false", "metadata-aes256-encmeta-false-enc-target":
+		// An encrypted source with document-level metadata (with /EncryptMetadata false where the
+		// version allows it) and, below a page-like dictionary, metadata streams which are NOT the
+		// catalog's (owned by the page, a form XObject, an image), an XObject, an untyped stream and
+		// a metadata stream which opts out of encryption with /Crypt /Identity.  Only the catalog's
+		// stream is exempt from encryption; all are copied, the catalog's one too.
+		cs.srcPw = "src"
+		cs.srcMeta = 1
+		switch {
+		case strings.HasPrefix(name, "metadata-rc4-40"):
+			cs.srcVer = pdf.V1_3
+			cs.srcMeta = 0 // metadata streams need 1.4
+		case strings.HasPrefix(name, "metadata-rc4-128"):
+			cs.srcVer = pdf.V1_5
+		case strings.HasPrefix(name, "metadata-aes128"):
+			cs.srcVer = pdf.V1_7
+		default:
+			cs.srcVer = pdf.V2_0
+		}
+		if strings.Contains(name, "encmeta-false") {
+			cs.srcMeta = 2
+		}
+		if strings.HasSuffix(name, "enc-target") {
+			cs.tgtPw = "tgt"
+		}
+		xml := func(who string) []byte {
+			return []byte("<?xpacket begin='' id='W5M0MpCehiHzreSzNTczkc9d'?><x:xmpmeta xmlns:x='adobe:ns:meta/'>" + who + "</x:xmpmeta><?xpacket end='w'?>")
+		}
+		stm := func(n int, d pdf.Dict, data []byte, fs ...pdf.Filter) *cpyNode {
+			d["CpyId"] = pdf.Integer(n)
+			return &cpyNode{ref: ref(n), kind: nkStream, dict: d, data: data, filters: fs}
+		}
+		md := func() pdf.Dict { return pdf.Dict{"Type": pdf.Name("Metadata"), "Subtype": pdf.Name("XML")} }
+		cs.nodes = []*cpyNode{
+			node(2, pdf.Dict{"Type": pdf.Name("Page"), "Metadata": ref(3), "Form": ref(4), "Image": ref(5), "Plain": ref(8)}),
+			stm(3, md(), xml("page")),
+			stm(4, pdf.Dict{"Type": pdf.Name("XObject"), "Subtype": pdf.Name("Form"), "Metadata": ref(6)}, []byte("q 1 0 0 1 0 0 cm Q")),
+			stm(5, pdf.Dict{"Type": pdf.Name("XObject"), "Subtype": pdf.Name("Image"), "Metadata": ref(7)}, bytes.Repeat([]byte{0x80, 0x10}, 600), pdf.FilterASCIIHex{}),
+			stm(6, md(), xml("form xobject"), pdf.FilterASCII85{}),
+			stm(7, md(), xml("image")),
+			stm(8, pdf.Dict{}, []byte("an untyped stream")),
+		}
+		if cs.srcVer >= pdf.V1_2 {
+			cs.nodes[4].filters = []pdf.Filter{pdf.FilterFlate{}}
+		}
+		if cs.srcVer >= pdf.V1_5 {
+			cs.nodes[5].filters = []pdf.Filter{pdf.FilterCryptIdentity{}}
+		}
+		cs.prog = []cpyOp{{kind: "cr", ref: ref(2)}, {kind: "cg", ref: ref(6), later: 1}}
+		if cs.srcMeta != 0 {
+			cs.prog = append(cs.prog, cpyOp{kind: "cr", catMeta: true}, cpyOp{kind: "cg", catMeta: true})
+		}
 	default:
 		return nil
 	}
@@ -1065,7 +1172,7 @@ func replayCPY(input string) (bool, string) {
 }
 
 func runCPY(c *Ctx) {
-	n := 12000
+	n := 9000
 	if c.Thorough {
 		n = 70000
 	}
